@@ -189,6 +189,12 @@ package ice
 //@   ghostvar tcpT TCPType = TCPTypeUnspecified
 //@   site call NewTCPType#1 ghost tcpT := result
 //@   ensures C06 C16 the-parsed-tcp-type-is-kept-for-every-candidate-type: result1 == nil ==> baseOf(result0).tcpType == tcpT
+//@   ghostvar rawT string = ""
+//@   ghostvar typed bool = false
+//@   site call unmarshalCandidateExtensions#1 ghost rawT := result1
+//@   site call NewTCPType#1 assert C06 C16 interprets-the-tcptype-token-of-this-text: arg0 == rawT
+//@   site call NewTCPType#1 ghost typed := true
+//@   ensures C06 C16 a-tcptype-token-is-interpreted-whenever-the-text-carries-one-however-the-transport-is-spelled: result1 == nil && rawT != "" ==> typed
 //@ func tryReadRelativeAddrs
 //@   props C16
 //@   requires in-range: 0 <= start && start <= len(raw)
